@@ -123,6 +123,24 @@ def parseEncodedValue (e : Endian) (enc : Nat) (addressSize : Nat) (bs : Bytes) 
   | 12 => sx 8 (Ints.readFixed e 8 bs)
   | _ => .panic "internal error: entered unreachable code"
 
+/-- the `base` of `parse_encoded_pointer`, selected by the application bits of the encoding
+(`func_base = None`); `pos` is `input.offset_from(parameters.section)` -/
+def pointerBase (m : Mode) (enc : Nat) (p : PtrParams) (pos : Nat) : Out Nat :=
+  match (enc / 16) % 8 with
+  | 0 => pure 0
+  | 1 => match p.sectionBase with
+    | some sb => wrappingAddSized m sb pos p.addressSize
+    | none => .err .rPcRelativePointerButSectionBaseIsUndefined
+  | 2 => match p.textBase with
+    | some t => pure t
+    | none => .err .rTextRelativePointerButTextBaseIsUndefined
+  | 3 => match p.dataBase with
+    | some d => pure d
+    | none => .err .rDataRelativePointerButDataBaseIsUndefined
+  | 4 => .err .rFuncRelativePointerInBadContext
+  | 5 => .err .rUnsupportedPointerEncoding
+  | _ => .panic "internal error: entered unreachable code"
+
 /-- `parse_encoded_pointer(encoding, parameters, input)` with `func_base = None`: the address,
 whether it is `Pointer::Indirect`, and the remaining input.
 `pos` is `input.offset_from(parameters.section)`. -/
@@ -131,20 +149,7 @@ def parseEncodedPointer (m : Mode) (e : Endian) (enc : Nat) (p : PtrParams) (pos
   if !ehPeValid enc then .err .rUnknownPointerEncoding
   else if enc = 0xff then .err .rCannotParseOmitPointerEncoding
   else do
-    let base : Nat ← match (enc / 16) % 8 with
-      | 0 => pure 0
-      | 1 => match p.sectionBase with
-        | some sb => wrappingAddSized m sb pos p.addressSize
-        | none => .err .rPcRelativePointerButSectionBaseIsUndefined
-      | 2 => match p.textBase with
-        | some t => pure t
-        | none => .err .rTextRelativePointerButTextBaseIsUndefined
-      | 3 => match p.dataBase with
-        | some d => pure d
-        | none => .err .rDataRelativePointerButDataBaseIsUndefined
-      | 4 => .err .rFuncRelativePointerInBadContext
-      | 5 => .err .rUnsupportedPointerEncoding
-      | _ => .panic "internal error: entered unreachable code"
+    let base ← pointerBase m enc p pos
     let (off, rest) ← parseEncodedValue e enc p.addressSize bs
     let addr ← wrappingAddSized m base off p.addressSize
     pure ((addr, enc / 128 % 2 = 1), rest)
